@@ -191,7 +191,7 @@ def cases(draw):
     crashes = draw(st.lists(st.builds(lambda inv, at, n: {"inv": inv, "at": at, "n": n}, st.integers(0, 5), st.sampled_from(["api_before", "api_after", "user"]), st.integers(0, 5)), max_size=1))
     # the capturing logger is installed with set_logger() from user code, or it IS the default logger the root context
     # is built with (before the handler runs)
-    return {"prog": {"body": body}, "limits": {"checkpoint": 300}, "caplog": draw(st.sampled_from([True, True, "default"])), "ext_default": {"after_pending": draw(st.sampled_from([0, 0, 1, 2]))}, "backend": be, "plan": {"crashes": crashes}, "sched": [{"mode": "seq"}], "line": []}
+    return {"prog": {"body": body}, "limits": {"checkpoint": 300}, "keep_backend": ["prune_children"], "caplog": draw(st.sampled_from([True, True, "default"])), "ext_default": {"after_pending": draw(st.sampled_from([0, 0, 1, 2]))}, "backend": be, "plan": {"crashes": crashes}, "sched": [{"mode": "seq"}], "line": []}
 
 
 def nontrivial(run, case):
